@@ -103,6 +103,9 @@ package edit
 //@   pure
 //@   requires 0 <= pos && pos <= len(buffer)
 //@   ensures 0 <= result && result <= pos
+//   the category skipped is that of the CHARACTER (decoded rune) just before the position
+//@   log fv skipCatLeft
+//@   exit [category-of-the-character-before-the-position] pos > 0 ==> ncalls == 2 && callis(0, "fv") && callarg(0).(rune) == lastrune(buffer, pos) && callis(1, "skipCatLeft") && callarg1(1).(int) == callres(0).(int) && result == callres(1).(int)
 //@ func skipSameCatRight
 //@   props C28
 //@   pure
@@ -130,3 +133,8 @@ package edit
 //@   results nb nd
 //@   requires 0 <= dot && dot <= len(buffer)
 //@   ensures 0 <= nd && nd <= len(nb)
+//   a buffer holding a single character (of any byte length) is left alone
+//@   ensures [single-character-at-start-unchanged] len(buffer) > 0 && dot == 0 && sizeat(buffer, 0) == len(buffer) ==> nb === buffer && nd == dot
+//@   ensures [single-character-at-end-unchanged] len(buffer) > 0 && dot == len(buffer) && lastsize(buffer, len(buffer)) == len(buffer) ==> nb === buffer && nd == dot
+//   between two validly encoded characters: the two are swapped, nothing is added or lost, the dot ends after both
+//@   ensures [interior-swap-keeps-the-length] 0 < dot && dot < len(buffer) && sizeat(buffer, dot) == runelen(runeat(buffer, dot)) && lastsize(buffer, dot) == runelen(lastrune(buffer, dot)) ==> len(nb) == len(buffer) && nd == dot + sizeat(buffer, dot)
